@@ -29,7 +29,7 @@ CHECKS = {
    text='Counter vs recorder after every batch, batch size, unit-cube support, no batch started at/after n_like_max or after the simulated deadline, early return only at the deadline, return value equals the success predicate.',
    note='Simulated time advances only through likelihood costs, stalls and clock jumps.'),
  'C11': dict(engine='e1', cat='exploration', ref='5 (C11)',
-   technique='deterministic simulation: paired seeded runs differing in one invisible dimension (scalar/vectorised, simulated pool size/flavour/worker order, verbosity, checkpointing, interleaved accessor calls); digest equality',
+   technique='deterministic simulation: paired seeded runs differing in one invisible dimension (scalar/vectorised, simulated pool size/flavour/worker and completion order, verbosity, checkpointing, interleaved accessor calls, process history: fresh interpreter vs a worker that ran another sampler); digest equality',
    text='Digest equality of posterior with blobs, log_z, n_eff, n_like, generator state and per-batch call log between base and variant.',
    note='posterior(equal_weight=True) is not treated as a read-only accessor (documented to draw random numbers).'),
  'C12': dict(engine='e1', cat='exploration', ref='5 (C12)',
@@ -65,7 +65,7 @@ def build(extra_checks=None, extra_engines=None, pending=None):
             source_commits=[], add_only=True),
         engines=engines,
         checks=[],
-        notes='All checks are ./check <id> (VERIF_TIER=quick|thorough, VERIF_SEED=<int>); exit 0 held, 1 VIOLATION, 2 harness error, 3 timeout. Genuine defects found and repaired are listed in known_findings.json (fix: commits in /repo). See DESIGN.md.',
+        notes='All checks are ./check <id> (VERIF_TIER=quick|thorough, VERIF_SEED=<int>); exit 0 held, 1 VIOLATION, 2 harness error, 3 timeout. Genuine defects found and repaired are listed in known_findings.json (11 fix: commits in /repo, status fixed; one status known for C07). ./check selftest = determinism self-test; tools/run_mutants.sh = planted mutants; seeded/ = 39 independently seeded changes with the checks that catch them. See DESIGN.md sections 16-19.',
         not_applicable=[dict(property_id=k, reason=v) for k, v in sorted(NA.items())] +
         [dict(property_id=k, reason=v) for k, v in sorted((pending if pending is not None else PENDING).items())],
     )
